@@ -32,7 +32,7 @@ class ReparseOracle(docexp.Oracle):
 
     def pre(self, root, op):
         number_values(root)       # reads before the edit: a memoised value must not survive it
-        model_values(root)
+        model_values(root, op)
         return tree.glued_pairs(root.token_store)
 
     def post(self, root, op, ap, pre, res, case):
@@ -69,7 +69,7 @@ class ReparseOracle(docexp.Oracle):
             res.fail(f'C06/number-value-differs-from-printed-text[{sig}]', where + f'number expression #{k}: the model says '
                      f'{va[k] if k < len(va) else None}, the re-parsed text {vb[k] if k < len(vb) else None}')
             return
-        ma, mb = model_values(root), model_values(again)
+        ma, mb = model_values(root, op), model_values(again, op)
         for key, va_ in ma.items():
             vb_ = mb.get(key)
             if vb_ is not None and va_ != vb_:
@@ -85,14 +85,17 @@ class ReparseOracle(docexp.Oracle):
 COL0_COMMENT_INSIDE_BLOCK = re.compile(r'(?m)^[ \t]+[^ \t\r\n][^\n]*\n(;[^\n]*\n)+[ \t]+[^ \t\r\n]')
 
 
-def model_values(root) -> dict:
+def model_values(root, op=None) -> dict:
     """(path, class, printed text) -> value properties, for every model whose path, class and text identify it in both
     the in-memory and the re-parsed document (comment properties and indent_by are attribution / layout, not content)"""
     from . import c09
     out = {}
+    focus = tuple(op[1]) if op is not None and not (op[1] and op[1][0] == '@') else None
     for path, m in tree.walk(root):
         if isinstance(m, (M.RawTokenModel, R.Repeated)):
             continue
+        if focus is not None and path[:len(focus)] != focus and focus[:len(path)] != path:
+            continue           # only the edited model, what is inside it and what it is inside of
         # string0/1/2 are the positional storage of payee / narration (a lone string is the narration): compared folded by
         # cmp_signature, and through the proper setters by C09's group exploration
         vals = {n: v for n, v in c09.read_all(m).items() if n not in c09.COMMENT_PROPS and
@@ -169,12 +172,12 @@ def main(run: core.Run) -> None:
     items += docexp.class_cases(1, level=('basic' if tier == 'quick' else 'full'))
     run.bounds['class_corpus'] = 'one minimal and one full document per directive class (38 documents), depth 1'
     docexp.bfs(run, ORACLE, items, 'depth-1 corpus')
-    minimal = ['2000-01-01 *\n', '2000-01-01 open Assets:Foo\n', '2000-01-01 note Assets:Foo "n"\n', '2000-01-01 custom "x"\n']
+    minimal = ['2000-01-01 *\n', '2000-01-01 open Assets:Foo\n']
     if tier != 'quick':
         minimal += [t + '\n' for t in docs.L_CLASSES[::2] if '\n' not in t]
     d2 += [{'text': t, 'mode': True, 'depth': 2, 'level': 'basic'} for t in dict.fromkeys(minimal)]
     docexp.bfs(run, ORACLE, d2, 'depth-2 corpus')
     # histories of three steps confined to one repeated field and its aliasing views
-    fc = docexp.focus_cases(3, 'basic', docexp.FOCUS_SUBJECTS[:1] if tier == 'quick' else None)
+    fc = docexp.focus_cases(3, 'basic', None) if tier != 'quick' else []       # (quick: C03 and C05 run the three-step histories)
     docexp.bfs(run, ORACLE, fc, 'depth-3 single-field histories')
     run.bounds['depth3'] = f'{len(fc)} single-field subjects (one repeated field + its views), in-range arguments'
